@@ -295,7 +295,8 @@ def gen_session(prop: str, tier: str, seed: int) -> dict:
         idmap = {o: o for o in range(0, K + 1)}
     if rng.chance(0.3):
         idmap[0] = rng.pick([50, -7, 13, 1000])      # the identity need not be operator 0 (it is an argument of the constructors)
-    cfg = {'world': 'gr', 'profile': profile, 'tier': tier, 'L': L, 'K': K, 'charges': ch, 'idI': idmap[0], 'd': d, 'qd': qd, 'idmap': {str(k): v for k, v in idmap.items()}, 'enabled': ['CBCALLS', 'CBBUF', 'GLOBALS'], 'faultfree': True,
+    coef_rep = rng.pick([None, None, None, '0d', '0d', 'np'])      # coefficients as Python floats, 0-d arrays or numpy scalars
+    cfg = {'world': 'gr', 'profile': profile, 'tier': tier, 'L': L, 'K': K, 'charges': ch, 'idI': idmap[0], 'coef_rep': coef_rep, 'd': d, 'qd': qd, 'idmap': {str(k): v for k, v in idmap.items()}, 'enabled': ['CBCALLS', 'CBBUF', 'GLOBALS'], 'faultfree': True,
            'opmap_seed': rng.sub()}
     nops = rng.randrange(3, 13) if tier == 'quick' else rng.randrange(4, 25)
     if rng.chance(0.05):
@@ -373,15 +374,15 @@ def gen_op(rng: Rng, cfg, kind: str) -> dict:
     if kind == 'random_layered':
         return {'op': 'random_layered', 'graph': gen_layered(rng, cfg)}
     if kind == 'to_mpo':
-        return {'op': 'to_mpo', 'sel': s(), 'nid_map': rng.chance(0.5)}
+        return {'opmap_rep': rng.pick([None, None, None, 'lazy', 'matrix']), 'op': 'to_mpo', 'sel': s(), 'nid_map': rng.chance(0.5)}
     if kind in ('simplify', 'flip', 'deepcopy'):
         return {'op': kind, 'sel': s()}
     if kind == 'merge_edges':
         return {'op': 'merge_edges', 'sel': s(), 'pair': s()}
     if kind == 'rename_node':
-        return {'op': 'rename_node', 'sel': s(), 'which': s(), 'new': rng.randrange(-30, 90), 'collide': rng.chance(0.2)}
+        return {'op': 'rename_node', 'sel': s(), 'which': s(), 'new': rng.randrange(-30, 90), 'collide': rng.chance(0.2), 'npid': rng.chance(0.3)}
     if kind == 'rename_edge':
-        return {'op': 'rename_edge', 'sel': s(), 'which': s(), 'new': rng.randrange(-30, 120), 'collide': rng.chance(0.2)}
+        return {'op': 'rename_edge', 'sel': s(), 'which': s(), 'new': rng.randrange(-30, 120), 'collide': rng.chance(0.2), 'npid': rng.chance(0.3)}
     if kind == 'add':
         return {'op': 'add', 'a': s(), 'b': s()}
     if kind == 'as_matrix':
